@@ -161,6 +161,10 @@ impl<V> HashMap<u64, V> {
 /// slice::reverse (std documentation): the elements in reverse order
 pub assume_specification<T> [<[T]>::reverse] (s: &mut [T])
     ensures final(s)@ == old(s)@.reverse();
+/// Result::unwrap_or_else (std documentation): the Ok value, else what the closure makes of the error
+pub assume_specification<T, E, F: FnOnce(E) -> T> [Result::<T, E>::unwrap_or_else] (res: Result<T, E>, f: F) -> (out: T)
+    requires res is Err ==> f.requires((res->Err_0,)),
+    ensures match res { Ok(v) => out == v, Err(e) => f.ensures((e,), out) };
 /// Result::and_then (std documentation): the closure is called on the Ok value, an Err is passed through
 pub assume_specification<T, E, U, F: FnOnce(T) -> Result<U, E>> [Result::<T, E>::and_then] (res: Result<T, E>, f: F) -> (out: Result<U, E>)
     requires res is Ok ==> f.requires((res->Ok_0,)),
